@@ -741,6 +741,13 @@ void htp_verif_trace(const void *connp, int site, int64_t a, int64_t b) { COST_P
         else if (x->dec[k].calls > 1 && t) { t->trace |= 1u << 9; x->r->trace_mask |= 1ull << 9; x->r->st.trace_sites[9]++; }
         if (site == 8) return;
     }
+    if (site == 2 && b == 2 && t && t->ptr->request_method_number != HTP_M_CONNECT) {
+        /* the known finding is the early hand-over while the request side waits for the answer to a CONNECT (sub-site 1) or at
+         * the end of a CONNECT transaction (sub-site 2: the unchanged library arms that flag for CONNECT answers only); the
+         * armed exit taken for any other transaction explains nothing: pseudo-site 12, no attribution */
+        t->trace |= 1u << 12; x->r->trace_mask |= 1ull << 12; x->r->st.trace_sites[12]++;
+        return;
+    }
     if (t) t->trace |= 1u << site;
 }
 
